@@ -37,7 +37,7 @@ FIELDS = {
     ("DictWrapper", "_data"): ("DictWrapper._data", "dict:val", None),
     ("Module", "_symbol_name_index"): ("_symbol_name_index", "dict:set", "defaultdict:set"),
     ("Module", "_symbol_referent_index"): ("_symbol_referent_index", "dict:set", "defaultdict:set"),
-    ("LazyIntervalTree", "_interval_events"): ("_interval_events", "list", None),
+    ("LazyIntervalTree", "_interval_events"): ("_interval_events", "seq", None),
     ("ByteInterval", "contents"): ("contents", "bytes", None),
     ("Section", "flags"): ("Section.flags", "set", None),
     ("SymbolicExpression", "attributes"): ("SymExpr.attributes", "set", None),
@@ -57,7 +57,8 @@ FIELD_CLASSES = {
 
 # (class, attr) specific overrides
 FIELD_CLASSES_BY_CLASS = {
-    ("Section", "_interval_index"): "LazyIntervalTree",
+    ("Section", "_interval_index"): ("LazyIntervalTree", "ByteInterval"),
+    ("ByteInterval", "_interval_tree"): ("LazyIntervalTree", "ByteBlock"),
     ("LazyIntervalTree", "_interval_index"): "$IntervalTree",
     ("Section._ByteIntervalSet", "_node"): "Section",
     ("ByteInterval._BlockSet", "_node"): "ByteInterval",
@@ -121,9 +122,18 @@ class Schema:
             fcls = FIELD_CLASSES.get(attr)
         return (attr, "val", fcls)
 
+    def post_read(self, obj, attr, sv):
+        if obj.cls == "LazyIntervalTree" and attr == "_value_collection" and obj.x in self.LIT:
+            return SV(sv.k, sv.t, cls=self.LIT[obj.x][1], x=sv.x, wb=sv.wb)
+        if obj.cls == "LazyIntervalTree" and attr == "_interval_index":
+            return SV(sv.k, sv.t, cls="$IntervalTree", x=obj.x, wb=sv.wb)
+        return sv
+
     def field_sort(self, key):
         if key == "$kind":
             return z3.ArraySort(Int, Int)
+        if key == "$alive":
+            return z3.ArraySort(Int, Bool)
         base = key.split("#")[0]
         kind = None
         for (k, knd, _c) in FIELDS.values():
@@ -133,6 +143,8 @@ class Schema:
             return z3.ArraySort(Int, Val)
         if kind == "set":
             return z3.ArraySort(Int, SetSort)
+        if kind == "seq":
+            return z3.ArraySort(Int, z3.SeqSort(Val))
         if kind in ("list", "bytes"):
             return z3.ArraySort(Int, z3.ArraySort(Int, Val)) if key.endswith("#items") else z3.ArraySort(Int, Int)
         if kind == "dict:val":
@@ -143,6 +155,58 @@ class Schema:
 
     def refine(self, sv):
         return sv
+
+    # function-valued / statically-known fields of LazyIntervalTree, by element type.  Class-shape fact,
+    # checked mechanically by shape_checks(): the only two constructions of LazyIntervalTree in /repo are
+    #   LazyIntervalTree[int, ByteBlock](self.blocks, _offset_interval)            (ByteInterval.__init__)
+    #   LazyIntervalTree[int, ByteInterval](self.byte_intervals, _address_interval) (Section.__init__)
+    LIT = {"ByteBlock": ("util.py::_offset_interval", "ByteInterval._BlockSet"),
+           "ByteInterval": ("util.py::_address_interval", "Section._ByteIntervalSet")}
+
+    def static_field(self, eng, obj, attr):
+        if obj.cls == "LazyIntervalTree" and obj.x in self.LIT:
+            if attr == "_make_interval":
+                return SV("func", x=(eng.prog.find_function(self.LIT[obj.x][0]), {}))
+        return None
+
+    def shape_checks(self):
+        """Mechanical checks of the class-shape facts the encoding relies on.  Returns list of failures."""
+        import ast as _ast
+        bad = []
+        prog = self.prog
+        # 1. constructions of LazyIntervalTree
+        seen = {}
+        for fn, tree in prog.files.items():
+            for n in _ast.walk(tree):
+                if isinstance(n, _ast.Call) and isinstance(n.func, _ast.Subscript) \
+                        and _ast.unparse(n.func.value) == "LazyIntervalTree":
+                    elem = _ast.unparse(n.func.slice).split(",")[-1].strip().strip(")")
+                    seen[elem] = (fn, _ast.unparse(n.args[0]), _ast.unparse(n.args[1]))
+                elif isinstance(n, _ast.Call) and _ast.unparse(n.func) == "LazyIntervalTree":
+                    bad.append("unparameterised LazyIntervalTree(...) construction in %s" % fn)
+        exp = {"ByteBlock": ("byteinterval.py", "self.blocks", "_offset_interval"),
+               "ByteInterval": ("section.py", "self.byte_intervals", "_address_interval")}
+        if seen != exp:
+            bad.append("LazyIntervalTree constructions changed: %r" % (seen,))
+        # 2. no Node subclass defines __eq__/__hash__/__bool__/__len__
+        node = prog.classes.get("Node")
+        for ci in prog.classes.values():
+            if node in ci.mro:
+                for m in ("__eq__", "__hash__", "__bool__", "__len__"):
+                    if m in ci.methods:
+                        bad.append("%s defines %s (identity semantics of nodes assumed)" % (ci.qual, m))
+        # 3. wrapper _data fields are assigned only in __init__
+        for cname in ("SetWrapper", "ListWrapper", "DictWrapper"):
+            for ci in prog.classes.values():
+                if prog.classes[cname] in ci.mro:
+                    for mname, fi in ci.methods.items():
+                        for n in _ast.walk(fi.node):
+                            if isinstance(n, (_ast.Assign, _ast.AnnAssign)):
+                                tgts = n.targets if isinstance(n, _ast.Assign) else [n.target]
+                                for t in tgts:
+                                    if isinstance(t, _ast.Attribute) and t.attr == "_data" and mname != "__init__":
+                                        bad.append("%s.%s rebinds _data" % (ci.qual, mname))
+        return bad
 
     # ----------------------------------------------------------- enums
     def enum_member(self, prog, ci, name):
@@ -336,6 +400,8 @@ class Schema:
             return sv_int(Card(a.t))
         if k in ("list", "bytes"):
             return sv_int(a.x)
+        if k == "seq":
+            return sv_int(z3.Length(a.t))
         if k == "dict":
             st.facts.append(Card(a.x[0]) >= 0)
             st.facts.append((Card(a.x[0]) == 0) == (a.x[0] == EmptySet))
@@ -380,6 +446,14 @@ class Schema:
             return self.dict_method(eng, obj, name, args, kwargs, st)
         if k == "list":
             return self.list_method(eng, obj, name, args, st)
+        if k == "seq":
+            if name == "append":
+                self._wb(obj, SV("seq", z3.Concat(obj.t, z3.Unit(to_val(args[0]))), cls=obj.cls), st)
+                return sv_none()
+            if name == "clear":
+                self._wb(obj, SV("seq", z3.Empty(z3.SeqSort(Val)), cls=obj.cls), st)
+                return sv_none()
+            raise Unsupported("seq.%s" % name)
         if k == "iv":
             if name == "length":
                 d = ive(obj.t) - ivb(obj.t)
